@@ -55,22 +55,43 @@ def zero_crossing_rules(chk):
             chk.ob("R-ZC-STRICT", cc + "{adjacent zeros}", "a zero is kept iff its distance to the previous zero is > 1", len(adj) >= 1 and
                    all(e.op == "Gt" for e in adj if e.left.kind == K_ARRAY), derived="%s" % [(e.op) for e in adj], loc=adj[0].loc if adj else fi.loc())
         if not kaz:
+            # the first zero of the series is always kept.  Two spellings are known: (i) the index differences are taken with a literal
+            # to_begin > 1, so the first one passes `> 1`; (ii) a keep-mask allocated by np.ones whose elements [1:] are overwritten by the
+            # `> 1` test (element 0 stays True).  Neither found: the rule cannot tell (inconclusive), it does not refute.
             ed = [e for e in r.events("lib-call", ZC) if e.name == "numpy.ediff1d" and "where-index" in e.args[0].tags]
-            tb = ed[0].kwargs.get("to_begin") if ed else None
-            oks = len(ed) == 1 and tb is not None and tb.has_const() and isinstance(tb.const, (int, float)) and tb.const > 1
-            chk.ob("R-ZC-STRICT", cc + "{first zero}", "the first zero of the series is always kept: its index difference is a literal > 1", oks,
-                   derived="to_begin=%s" % ((tb.const if tb.has_const() else "a computed value") if tb is not None else None), loc=ed[0].loc if ed else fi.loc(),
-                   stmt=ed[0].stmt if ed else None)
-        cat = [e for e in r.events("lib-call", ZC) if e.name == "numpy.concatenate"]
+            mk = [e for e in r.events("subscript", ZC) if e.index.kind == K_ARRAY and e.index.dtype == "bool" and "where-index" in e.base.tags and
+                  isinstance(e.index.note, tuple) and e.index.note and e.index.note[0] == "init"]
+            if ed:
+                tb = ed[0].kwargs.get("to_begin")
+                oks = len(ed) == 1 and tb is not None and tb.has_const() and isinstance(tb.const, (int, float)) and tb.const > 1
+                chk.ob("R-ZC-STRICT", cc + "{first zero}", "the first zero of the series is always kept: its index difference is a literal > 1", oks,
+                       derived="to_begin=%s" % ((tb.const if tb.has_const() else "a computed value") if tb is not None else None), loc=ed[0].loc,
+                       stmt=ed[0].stmt)
+            elif mk:
+                m = mk[0].index
+                oks = "alloc:ones" in m.tags and m.note[2] == frozenset(["all-but-first"])
+                chk.ob("R-ZC-STRICT", cc + "{first zero}", "the first zero of the series is always kept: the keep-mask starts as np.ones and only its "
+                       "elements [1:] are overwritten", oks, derived="mask allocated by %s, overwritten regions %s" %
+                       (sorted(t for t in m.tags if t.startswith("alloc:")), sorted(m.note[2])), loc=mk[0].loc)
+            else:
+                chk.ob("R-ZC-STRICT", cc + "{first zero}", "the first zero of the series is always kept", False,
+                       derived="neither a literal to_begin nor a ones-initialised keep-mask was found", inconclusive=True, loc=fi.loc())
+        cats = [e for e in r.events("lib-call", ZC) if e.name == "numpy.concatenate" and e.args and e.args[0].items is not None]
+        cat = [e for e in cats if all(i.kind == K_ARRAY for i in e.args[0].items)]                  # joins of index arrays
+        pre_cat = [e for e in cats if len(e.args[0].items) == 2 and e.args[0].items[0].kind in (K_LIST, K_TUPLE) and e.args[0].items[0].items is not None
+                   and len(e.args[0].items[0].items) == 1 and e.args[0].items[0].items[0].has_const() and e.args[0].items[0].items[0].const == 0
+                   and "where-index" in e.args[0].items[1].tags]                                  # np.concatenate(([0], indices))
         srt = [e for e in r.events("mutation", ZC) if e.how == "ndarray.sort"] + [e for e in r.events("lib-call", ZC) if e.name == "numpy.sort"]
-        okc = len(cat) == 1 and cat[0].args[0].items is not None and len(cat[0].args[0].items) == 2 and all("where-index" in i.tags for i in cat[0].args[0].items)
+        okc = len(cat) == 1 and len(cat[0].args[0].items) == 2 and all("where-index" in i.tags for i in cat[0].args[0].items) and \
+            len(cats) == len(cat) + len(pre_cat)
         chk.ob("R-ZC-STRICT", cc + "{assembly}", "result = sorted concatenation of the zero set and the crossing set (no other source of indices)",
-               okc and len(srt) == 1, derived="%d concatenate, %d sort" % (len(cat), len(srt)), loc=cat[0].loc if cat else fi.loc())
+               okc and len(srt) == 1, derived="%d joining concatenate, %d prepending, %d other, %d sort" % (len(cat), len(pre_cat), len(cats) - len(cat) - len(pre_cat),
+                                                                                                        len(srt)), loc=cat[0].loc if cat else fi.loc())
         ins0 = [e for e in r.events("lib-call", ZC) if e.name == "numpy.insert" and e.args[1].has_const() and e.args[1].const == 0 and
-                e.args[2].has_const() and e.args[2].const == 0 and "where-index" in e.args[0].tags]
+                e.args[2].has_const() and e.args[2].const == 0 and "where-index" in e.args[0].tags] + pre_cat
         guard = [e for e in cm if e.op == "NotEq" and e.right.has_const() and e.right.const == 0 and e.left.kind in (K_SCALAR, K_TOP) and "where-index" in e.left.tags]
         chk.ob("R-ZC-STRICT", cc + "{index 0}", "index 0 is prepended exactly when the first index is not 0", len(ins0) == 1 and len(guard) == 1,
-               derived="%d insert(0, 0), %d `[0] != 0` guard" % (len(ins0), len(guard)), loc=ins0[0].loc if ins0 else fi.loc())
+               derived="%d prepend(s) of 0, %d `[0] != 0` guard" % (len(ins0), len(guard)), loc=ins0[0].loc if ins0 else fi.loc())
         expect(chk, "R-ZC-STRICT", cc + ".result", r.ret, dtype="int", sign="nonneg", kind=K_ARRAY, tags_has=["where-index"], loc=fi.loc())
     # tolerance
     r = analyse(chk, ZC, lambda I, st, fi: dict(values=rec_array("values"), tol=AV(kind=K_SCALAR, dtype="real", shape=(), sign=S_POS, origin=frozenset(["lit"]),
@@ -78,9 +99,13 @@ def zero_crossing_rules(chk):
     dele = [e for e in r.events("lib-call", ZC) if e.name == "numpy.delete"]
     rets = r.returns()
     ops_after = [e for e in r.events("lib-call", ZC) if e.name in ("numpy.insert", "numpy.append", "numpy.concatenate") and any("p:tol" in a.tags for a in e.args)]
-    chk.ob("R-TOL-SUB", c + "(tol>0){delete}", "the tolerance only deletes entries of the tol=0 result", len(dele) == 1 and not ops_after and
-           "where-index" in dele[0].args[0].tags, derived="%d np.delete, %d inserting op(s) depending on tol" % (len(dele), len(ops_after)),
-           loc=dele[0].loc if dele else fi.loc())
+    masks = [e for e in r.events("subscript", ZC) if e.index.kind == K_ARRAY and e.index.dtype == "bool" and "p:tol" in e.index.tags and
+             "where-index" in e.base.tags]               # all_zc_indices[keep]: the same thing as np.delete of the complement
+    drops = [("np.delete", e.args[0], e.loc) for e in dele] + [("boolean mask", e.base, e.loc) for e in masks]
+    chk.ob("R-TOL-SUB", c + "(tol>0){delete}", "the tolerance only deletes entries of the tol=0 result (np.delete or a boolean keep-mask)",
+           len(drops) == 1 and not ops_after and "where-index" in drops[0][1].tags,
+           derived="%d deleting op(s) %s, %d inserting op(s) depending on tol" % (len(drops), [d[0] for d in drops], len(ops_after)),
+           loc=drops[0][2] if drops else fi.loc())
     chk.ob("R-TOL-SUB", c + "(tol>0).result", "the result is a subsequence of the tol=0 result", any("subsequence" in v.tags for v in rets),
            derived="%s" % [sorted(t for t in v.tags if t in ("subsequence",)) for v in rets], loc=fi.loc())
     r = analyse(chk, ZC, lambda I, st, fi: dict(values=rec_array("values"), tol=const_av(-1.0)))
